@@ -3,6 +3,7 @@ package main
 import (
 	"fmt"
 	"strconv"
+	"time"
 
 	"github.com/mimiro-io/datahub/internal/jobs"
 	"github.com/mimiro-io/datahub/internal/server"
@@ -158,7 +159,19 @@ func genC17(c *Ctx) {
 	}
 }
 
+// a rejected EMPTY batch (a transform that filters a whole batch away, a sink that is down): run in
+// a child process, a wrong leaf test recurses forever
+func genC17Empty(c *Ctx) {
+	for _, m := range []int{0, 2} {
+		c.DoChild("c17.bisectchild", M{"batches": [][]int{{}}, "bad": []int{}, "failCalls": []int{0}, "m": m, "stale": false}, 60*time.Second)
+		c.DoChild("c17.bisectchild", M{"batches": [][]int{{1, 2}, {}, {3}}, "bad": []int{2}, "failCalls": []int{3}, "m": m, "stale": false}, 60*time.Second)
+	}
+}
+
 func init() {
 	register("c17", genC17)
+	register("c17empty", genC17Empty)
 	registerKind("c17.bisect", runC17Bisect)
+	registerKind("c17.bisectchild", runC17Bisect)
+	childKinds["c17.bisectchild"] = true
 }
